@@ -295,7 +295,9 @@ public:
     {
         doRemoveEntries();
 
-        if (!m_buckets.empty())
+        // (m_freeEntries.begin() would allocate the head node of
+        // a free list that was never used.)
+        if (!m_buckets.empty() && !m_freeEntries.empty())
         {
             EntryListIterator   toRemove = m_freeEntries.begin();
 
